@@ -277,7 +277,7 @@ fn one_recipe(ctx: &mut Ctx, parser: &CooklangParser, input: &str, factor: f64) 
 const NAMES1: &[&str] = &["flour", "salt", "egg", "water", "é", "oil", "Zucker", "рис"];
 const NAMESN: &[&str] = &["sea salt", "olive oil", "crème fraîche", "egg yolk", "brown  sugar", "2nd rise"];
 const UNITS: &[&str] = &["g", "kg", "ml", "cup", "cups", "tbsp", "min", "minutes", "h", "°C", "large", "l", "T", "t", "mL", "G"];
-const NUMS: &[&str] = &["1", "2", "200", "0.5", "1.5", "1/2", "1 1/2", "3/4", "0", "10.25", "7/3", "1000000", "0.1", "2/3"];
+const NUMS: &[&str] = &["1", "2", "200", "0.5", "1.5", "1/2", "1 1/2", "3/4", "0", "10.25", "7/3", "1000000", "0.1", "2/3", "1 2/3", "7 1/3", "3 5/7", "100000 1/50000", "1 1/10"];
 const TEXTV: &[&str] = &["a few", "some", "2-3", "a pinch", "1 or 2", "01", "one"];
 const WORDS: &[&str] = &["Mix", "the", "and", "then", "bake", "until", "golden", "add", "stir", "well", "für", "10", "minutes", "slowly", "."];
 const NOTES: &[&str] = &["sifted", "finely chopped", "room temperature", "é", "big one"];
